@@ -366,4 +366,20 @@ CHECKS = {
                        "stubs": {"wires (unit part)": "stubWire implementing the wire interface", "pool lock": "scheduler-granted locker through the verif NewPoolLocker seam", "network/server (system part)": "simnet + fakeredis"}},
         "assumptions": ["cluster and sentinel front-ends use the same mux and pools and are not run separately"],
     },
+    "C28": {
+        "level": "exploration",
+        "rule": ("plans: 2-6 tasks issuing read-only, retryable-marked and plain commands alone and in batches (uniform and mixed flags) whose replies are values, "
+                 "ordinary errors or nil; the node answers its first 0-8 commands with LOADING; 1-4 connection faults (reset, EOF, reset after execution, EOF mid-reply, "
+                 "write error, node restart with refused dials); RetryDelay is a logged harness function returning per-attempt delays of 0-2000 ms or a negative value "
+                 "(stop); DisableRetry in a fifth of the plans; deadlines on a sixth of the calls; oracle from the model's per-command attempt log and the delay log: "
+                 "more than one attempt only for read-only/retryable commands (for batches: all of them), never with DisableRetry, never more attempts than non-negative "
+                 "delay answers + 1, none after a negative answer, none after the call's deadline; LOADING/ordinary errors/nil are returned unchanged; "
+                 "non-trivial = a command was re-sent or the delay function was consulted; distinct = distinct event-log hash"),
+        "parts": [
+            {"module": "rueidis", "scenario": "retry-policy", "quick": 8000, "thorough": 600000},
+        ],
+        "expected_probes": ["command-sent-more-than-once", "retry-delay-said-stop", "loading-replies"],
+        "components": {"real": REAL, "stubs": STUBS},
+        "assumptions": ["single-node client front-end only; the retry loops of the standalone, sentinel and cluster front-ends (TRYAGAIN / CLUSTERDOWN) are not exercised yet"],
+    },
 }
